@@ -47,6 +47,7 @@ def kinds(lang):
            ("block0", "line", "/* inserted { ( comment */"), ("block-ind", "line", "    /* length (in bytes); don't \"quote\" } */"),
            ("trail-slash", "trail", " // trailing { comment"), ("trail-block", "trail", " /* trailing ( */"), ("trail-spaces", "trail", "   "),
            ("trail-mention", "trail", " // was marked nocl before the refactoring"), ("trail-mention-block", "trail", " /* not a nocl marker */"),
+           ("trail-block-2lines", "trail", " /* trailing comment that\n      continues on the next line */"),
            ("wide-line", "line", "//# sourceMappingURL=data:application/json;base64," + "QUJD" * (WIDE // 4)),
            ("trail-wide", "trail", " /* " + "w" * WIDE + " */")]
     return ks
@@ -91,6 +92,7 @@ def apply(lines, inserts):
     for b, mode, t, *_ in sorted(inserts, key=lambda x: -x[0]):
         if mode == "trail":
             out[b - 1] = out[b - 1] + t
+            new_lines += [b] * t.count("\n")  # a trailing comment that runs over several lines adds lines below line b
         else:
             out.insert(b, t)
             new_lines.append(b)
